@@ -755,7 +755,21 @@ func c19RunSample(c *Ctx, s *c19SampleCase) {
 				t := common.PerspectiveTransform_QuadrilateralToQuadrilateral(
 					s.to[0], s.to[1], s.to[2], s.to[3], s.to[4], s.to[5], s.to[6], s.to[7],
 					s.from[0], s.from[1], s.from[2], s.from[3], s.from[4], s.from[5], s.from[6], s.from[7])
+				probe := []float64{0.5, 0.5, 1.5, 2.5, float64(s.dimX) - 0.5, float64(s.dimY) - 0.5}
+				before := append([]float64{}, probe...)
+				t.TransformPoints(before)
 				bits, err = gs.SampleGridWithTransform(img.bm, s.dimX, s.dimY, t)
+				// the transform belongs to the caller: sampling it again, and mapping points through it afterwards, must
+				// give what it gave the first time
+				bits2, err2 := gs.SampleGridWithTransform(img.bm, s.dimX, s.dimY, t)
+				after := append([]float64{}, probe...)
+				t.TransformPoints(after)
+				if fmt.Sprint(before) != fmt.Sprint(after) {
+					return "TRANSFORM-MUTATED by SampleGridWithTransform"
+				}
+				if (err == nil) != (err2 == nil) || (err == nil && c19ShowBits(bits) != c19ShowBits(bits2)) {
+					return "SECOND-SAMPLING-WITH-THE-SAME-TRANSFORM-DIFFERS"
+				}
 			} else {
 				bits, err = gs.SampleGrid(img.bm, s.dimX, s.dimY,
 					s.to[0], s.to[1], s.to[2], s.to[3], s.to[4], s.to[5], s.to[6], s.to[7],
